@@ -435,6 +435,14 @@ def cases(tier, seed):
             k += 1
             for data in (",1,2", "1,2,3"):
                 yield {"kind": "readtmp", "text": "10 DIM A(9)\n20 DATA %s,4\n30 READ %s\n" % (data, shape.replace("@", sub)), "init": k % 2 == 0}
+    # statements that need more than nine temporaries of one type (two-digit numbering)
+    names12 = ["A", "B", "C", "D", "E", "F", "G", "H", "I", "J", "K", "L", "M", "N"]
+    for n_ in (10, 11, 12, 14):
+        vs = names12[:n_]
+        for t in ("10 PRINT " + ";".join(vs) + "\n", "10 Z=" + "+".join("INT(%s)" % v for v in vs) + "\n",
+                  "10 Z$=" + "+".join("STR$(%s)" % v for v in vs) + "\n", "10 DATA " + ",".join(["1"] * (n_ - 1)) + ",\n20 READ " + ",".join(vs) + "\n",
+                  "10 Z=" + "+".join("LEN(HEX$(%s))" % v for v in vs) + "\n"):
+            yield {"kind": "readtmp", "text": t, "init": n_ % 2 == 0}
     crunch = ["10 @=7\n20 FORI=@TO9\n30 NEXT\n", "10 @=7\n20 FORI=1TO@STEP2\n30 NEXT\n", "10 @=7\n20 FORI=1TO9STEP@\n30 NEXT\n",
               "10 IFA=@THEN10\n", "10 IF@THEN10\n", "10 IFA=@GOTO10\n", "10 ON@GOTO10,10\n", "10 ON@GOSUB10\n20 RETURN\n",
               "10 IFA=1THENB=@ELSEB=2\n", "10 IFA=@ORB=@THEN10\n", "10 IFA=@ANDB=1THEN10\n", "10 B=NOT@\n", "10 PRINT@;@TAB(3)\n"]
